@@ -46,6 +46,7 @@ FORMS = {
     "field(default,kw_only)": "{n}: int = field(default=0, kw_only=True)", "field(kw_only=False)": "{n}: int = field(kw_only=False)", "KW_ONLY": "_: KW_ONLY", "ClassVar": "{n}: ClassVar[int] = 0",
     "InitVar": "{n}: InitVar[int]", "InitVar=": "{n}: InitVar[int] = 0", "unannotated": "{n} = 0",
     "property": "@property\n    def {n}(self) -> int: return 0", "method": "def {n}(self): ...", "dotted-field": "{n}: int = dataclasses.field(default=0)",
+    "field(default=MISSING)": "{n}: int = field(default=dataclasses.MISSING)",
 }
 FORM_NAMES = list(FORMS)
 DECOS = {
@@ -135,9 +136,40 @@ def hierarchy_cases(tier):
                 yield ("H", ds)
 
 
+# N: dataclasses NESTED in another class: outer class plain / with a hand-written __init__ / itself a dataclass / two levels deep
+N_OUTERS = ["plain", "with-init", "dataclass", "deep-with-init"]
+N_FORMS = ["plain", "default", "field(init=False)", "field(kw_only)", "KW_ONLY", "InitVar", "ClassVar"]
+N_DECOS = ["@dataclass", "kw_only=True", "init=False", "@dataclasses.dataclass"]
+
+
+def nested_cases(tier):
+    for outer in N_OUTERS:
+        for deco in N_DECOS:
+            for n in range(0, (2 if tier == "quick" else 3) + 1):
+                for forms in itertools.product(N_FORMS, repeat=n):
+                    for inner_h in (False, True):
+                        yield ("N", outer, deco, forms, inner_h)
+
+
+# D: diamonds. A(x, w) <- B, C <- D(B, C): B and C each leave x alone / re-declare it plain / with a default / as a non-field; both base orders.
+# (CPython collects fields from the bases' __dataclass_fields__ in reverse MRO order, so a base that merely INHERITS x re-asserts A's version)
+D_OVERRIDES = ["none", "plain", "default", "field(init=False,default)", "ClassVar"]
+
+
+def diamond_cases(tier):
+    for b in D_OVERRIDES:
+        for c in D_OVERRIDES:
+            for order in ("B, C", "C, B"):
+                for own in ("none", "default"):
+                    for mid_deco in ("@dataclass", "none"):
+                        yield ("D", b, c, order, own, mid_deco)
+
+
 def all_cases(tier):
     yield from single_cases(tier)
     yield from hierarchy_cases(tier)
+    yield from nested_cases(tier)
+    yield from diamond_cases(tier)
 
 
 def shards(tier):
@@ -173,7 +205,32 @@ def model_of(case):
     return h
 
 
+def _indent(text, n):
+    return "".join(("    " * n + l if l.strip() else l) for l in text.splitlines(True))
+
+
 def source_of(case):
+    if case[0] == "D":
+        _, b, c, order, own, mid_deco = case
+        src = HEAD + _class_src("A", None, "@dataclass", [("x", "plain"), ("w", "default")])
+        src += _class_src("B", "A", mid_deco, [("x", b)] if b != "none" else [])
+        src += _class_src("C", "A", "@dataclass", [("x", c)] if c != "none" else [])
+        src += _class_src("D", order, "@dataclass", [("z", own)] if own != "none" else [])
+        return src, ["A", "B", "C", "D"]
+    if case[0] == "N":
+        _, outer, deco, forms, inner_h = case
+        inner = _class_src("K", None, deco, [("abc"[i], f) for i, f in enumerate(forms)])
+        names = ["K"]
+        if inner_h:
+            inner += _class_src("K2", "K", "@dataclass", [("y", "default")]) + _class_src("K3", "K", "none", [])
+            names += ["K2", "K3"]
+        if outer == "plain":
+            return HEAD + "class Outer:\n    ov = 1\n" + _indent(inner, 1), ["Outer." + n for n in names]
+        if outer == "with-init":
+            return HEAD + "class Outer:\n    def __init__(self, hand, written=1): ...\n" + _indent(inner, 1), ["Outer." + n for n in names]
+        if outer == "dataclass":
+            return HEAD + "@dataclass\nclass Outer:\n    o: int\n" + _indent(inner, 1), ["Outer"] + ["Outer." + n for n in names]
+        return HEAD + "class Outer:\n    class Mid:\n        def __init__(self, hand, written=1): ...\n" + _indent(inner, 2), ["Outer.Mid." + n for n in names]
     m = model_of(case)
     src = HEAD
     for cls, d in m.items():
@@ -185,7 +242,7 @@ CATEGORY = {
     # F init field, N field(init=False), I InitVar, C ClassVar, U other class attribute, K marker; "=" leaves a class-level value, "k" keyword-only
     "plain": "F", "default": "F=", "field()": "F", "field(default)": "F=", "field(factory)": "F=", "field(kw_only)": "Fk", "field(default,kw_only)": "Fk=", "field(kw_only=False)": "Fnk",
     "dotted-field": "F=", "InitVar": "I", "InitVar=": "I=", "field(init=False)": "N", "field(init=False,default)": "N=", "ClassVar": "C=",
-    "unannotated": "U=", "method": "U=", "property": "U=", "KW_ONLY": "K",
+    "unannotated": "U=", "method": "U=", "property": "U=", "KW_ONLY": "K", "field(default=MISSING)": "Fm",
 }
 
 
@@ -260,8 +317,9 @@ def evaluate(griffe, case):
     problems = []
     nontrivial = False
     for cname in classes:
-        k = ns[cname]
-        gc = mod.members[cname]
+        k, gc = ns[cname.split(".")[0]], mod.members[cname.split(".")[0]]
+        for part in cname.split(".")[1:]:
+            k, gc = vars(k)[part], gc.members[part]
         own = "__init__" in vars(k)
         gm = gc.members.get("__init__")
         if own:
@@ -325,6 +383,11 @@ def _reduce(griffe, case, prob, key):
         if case[0] == "S":
             _, deco, forms = case
             cands = [("S", deco, forms[:i] + forms[i + 1:]) for i in range(len(forms))]
+        elif case[0] == "D":
+            cands = []
+        elif case[0] == "N":
+            _, outer, deco, forms, inner_h = case
+            cands = [("N", outer, deco, forms[:i] + forms[i + 1:], inner_h) for i in range(len(forms))] + ([("N", outer, deco, forms, False)] if inner_h else [])
         else:
             _, devs = case
             cands = [("H", devs[:i] + devs[i + 1:]) for i in range(len(devs))]
@@ -338,6 +401,10 @@ def _reduce(griffe, case, prob, key):
 
 def _key(case, prob):
     what, cname = prob[0], prob[1]
+    if case[0] == "D":
+        return f"diamond/{what}/{cname}/B:{case[1]}/C:{case[2]}/D({case[3]})" + ("/B-undecorated" if case[5] == "none" else "")
+    if case[0] == "N":
+        return f"nested/{case[1]}/{what}/{cname.rsplit('.', 1)[-1]}" + (f"/{case[2]}" if case[2] != "@dataclass" else "")
     blamed = prob[3] if len(prob) > 3 else None
     fam = "init" if case[0] == "S" else "hier"
     if blamed:
